@@ -726,6 +726,7 @@ class GCodeBuilder(GCodeCore):
             raise ValueError(f"Not a valid halt mode: {mode}.")
 
         mode = HaltMode(mode)
+        statement = self._get_statement(mode, kwargs)
         self.state._set_halt_mode(mode)
 
         # Track temperatures if provided
@@ -743,7 +744,6 @@ class GCodeBuilder(GCodeCore):
 
         # Output the statement
 
-        statement = self._get_statement(mode, kwargs)
         self.write(statement)
 
     def wait(self) -> None:
